@@ -20,10 +20,47 @@ RULE = ("(i) all 64 edge subsets of the 4-node topological order x 24 textual or
         "result names, side-effect-only sinks returning None, forward references), several programs per process; (iii) random EEMS models; "
         "each followed by a random history of 0-8 run()/result/metadata/to_string/validate_params steps; distinct by (n, edge count, "
         "styles used, has-sink, has-colliding-strings, history step kinds)")
-REQUIRED_COUNTERS = ["programs_run", "execute_events", "read_events", "history_steps", "reference_values_compared"]
+REQUIRED_COUNTERS = ["programs_run", "execute_events", "read_events", "history_steps", "reference_values_compared", "flatten_contract_evaluations"]
 EXHAUSTIVE_NOTE = "thorough tier enumerates all 64 x 24 x 3 four-command programs"
 ASSUMPTIONS = ["programs that fail to run are judged elsewhere (C12-C14) unless the program is valid by construction",
                "the order in which independent commands run is not judged", "equality, not identity, of fed values is demanded"]
+
+
+_flat = {"evals": 0, "bad": []}
+
+
+def prepare(ctx):
+    """Recording contract on the flattening of nested reference lists (the name bound in mpilot.program)."""
+    try:
+        import mpilot.program as MP
+        orig = MP.flatten
+    except Exception:
+        return
+
+    def own(li):
+        out = []
+        for x in li:
+            if isinstance(x, (list, tuple)):
+                out.extend(own(x))
+            else:
+                out.append(x)
+        return out
+
+    def flatten(li):
+        got = list(orig(li))
+        _flat["evals"] += 1
+        want = own(li)
+        if len(got) != len(want) or any(a is not b for a, b in zip(got, want)):
+            _flat["bad"].append((repr(li)[:200], repr(got)[:200]))
+        return iter(got)
+
+    MP.flatten = flatten
+
+
+def finish(ctx):
+    ctx.count("flatten_contract_evaluations", _flat["evals"])
+    if _flat["bad"]:
+        ctx.fail("contract:flatten-is-not-depth-first-flattening", {"input": _flat["bad"][0][0], "got": _flat["bad"][0][1]}, {"kind": "contract"})
 
 
 # ---------------------------------------------------------------- abstract DAG programs over vprobe
@@ -293,6 +330,8 @@ def run_history(ctx, prog, names, returned, history, tag, case_detail):
 
 def run_case(ctx, case):
     from mpilot.program import Program
+    if case["kind"] == "contract":
+        return
     if case["kind"] == "eems":
         return run_eems(ctx, case)
     nodes = case["nodes"]
